@@ -33,6 +33,7 @@ type Daemon struct {
 	certs     *Certs
 	stats     *http.Client
 	statsBase string
+	bmu       sync.Mutex
 	Log       *authLog
 }
 
@@ -148,6 +149,18 @@ func (d *Daemon) Stop() {
 	os.RemoveAll(d.dir)
 }
 
+func (d *Daemon) base() string {
+	d.bmu.Lock()
+	defer d.bmu.Unlock()
+	return d.statsBase
+}
+
+func (d *Daemon) setBase(b string) {
+	d.bmu.Lock()
+	d.statsBase = b
+	d.bmu.Unlock()
+}
+
 type statsDoc struct {
 	Topics []struct {
 		Name     string `json:"topic_name"`
@@ -163,7 +176,8 @@ func (d *Daemon) Effects(prefix string) (Effects, error) {
 	e := emptyEffects()
 	for _, t := range []string{"t1", "t2"} {
 		name := prefix + "_" + t
-		resp, err := d.stats.Get(d.statsBase + "/stats?format=json&include_clients=false&include_mem=false&topic=" + name)
+		q := "/stats?format=json&include_clients=false&include_mem=false&topic=" + name
+		resp, err := d.stats.Get(d.base() + q)
 		if err != nil {
 			return e, err
 		}
@@ -171,6 +185,20 @@ func (d *Daemon) Effects(prefix string) (Effects, error) {
 		resp.Body.Close()
 		if err != nil {
 			return e, err
+		}
+		if resp.StatusCode == 403 && d.HTTPSPort != 0 && strings.HasPrefix(d.base(), "http://") {
+			// the observer was refused on the plaintext port (the check of that refusal is the HTTP family's job):
+			// observe over TLS from now on
+			d.setBase(fmt.Sprintf("https://127.0.0.1:%d", d.HTTPSPort))
+			resp, err = d.stats.Get(d.base() + q)
+			if err != nil {
+				return e, err
+			}
+			body, err = io.ReadAll(resp.Body)
+			resp.Body.Close()
+			if err != nil {
+				return e, err
+			}
 		}
 		if resp.StatusCode != 200 {
 			return e, fmt.Errorf("GET /stats: %d %s", resp.StatusCode, body)
